@@ -268,9 +268,16 @@ def ext_level(ctx, ext, first_violation):
     independent occurrence arithmetic: (a) the visitor hands out exactly the instances of the object, each with its own
     start and end; (b) find_time_range is their hull; (c) time_range_match = the 9.9 tables."""
     rng = ctx.rng
+    XLIMIT = 40
+    vcases, hcases, mcases = [], [], []
     for o in ext:
         vo = X.parse(o)
         bounded = not (o["rec"] and not o["rec"]["bound"])
+        # model (Model/FilterExt.v) vs implementation: the recorded calls in order, the enclosing range, the match
+        got = X.real_record(o, XLIMIT)
+        vcases.append((o, None if isinstance(got, str) else got))
+        h = X.real_hull(vo, o)
+        hcases.append((o, None if isinstance(h, str) else h))
         if bounded:
             got = X.real_record(o, 2000)
             want = X.event_instances(o, None)
@@ -294,9 +301,10 @@ def ext_level(ctx, ext, first_violation):
                               dict(level="function-hull", object=o, ics=X.to_ics(o), hull=h, instances=want),
                               signature="C16: the enclosing range is not the hull of the instances")
         for r in X.boundary_ranges(rng, o, ctx.n(8, 20)):
+            m = X.real_match(vo, o, r)
+            mcases.append(((o, r), None if isinstance(m, str) else m))
             if not X.proper(r):
                 continue
-            m = X.real_match(vo, o, r)
             want = X.rfc_overlaps(o, r)
             ctx.case(("ext-match", okey(o), tuple(r)), nontrivial=True)
             if m != want and "ext-match" not in first_violation:
@@ -305,6 +313,30 @@ def ext_level(ctx, ext, first_violation):
                     m, want, r[0] and X.fmt_dt(r[0]), r[1] and X.fmt_dt(r[1]), X.to_ics(o).replace("\r\n", "|")),
                     dict(level="function", object=o, ics=X.to_ics(o), range=r, got=m, rfc=want),
                     signature="C16: time_range_match differs from RFC 4791 9.9 (RDATE / several instances per day / rescheduled instance)")
+
+    def record_bad(tag, bad, cases, show):
+        ok = bad is not None and not bad
+        if bad is not None:
+            ctx.obligation("correspondence:%s" % tag, ok,
+                           "" if ok else "model differs from implementation on %d of %d cases, first: %s" % (len(bad), len(cases), show(cases[bad[0]])))
+        if bad:
+            ctx.extra.setdefault("disagreements", {})[tag] = [show(cases[b]) for b in bad[:5]]
+
+    record_bad("ext:visit_time_ranges", ctx.diff_cases(
+        "c16_xv", X.EXT_HEADER, "xrecord %d 700" % XLIMIT, vcases, X.enc_xevent,
+        enc_opt(X.tlist(X.enc_call, "call")), "eq_opt (eq_list eq_call)"),
+        vcases, lambda c: "%s -> %r" % (X.to_ics(c[0]).replace("\r\n", "|"), c[1]))
+    record_bad("ext:find_time_range", ctx.diff_cases(
+        "c16_xh", X.EXT_HEADER, "(fun o => xfind_time_range (xhull_fuel o) o)", hcases, X.enc_xevent,
+        enc_opt(lambda h: "(%s, %s)" % (X.enc_xt(h[0]), X.enc_xt(h[1]))), "eq_opt eq_xx"),
+        hcases, lambda c: "%s -> %r" % (X.to_ics(c[0]).replace("\r\n", "|"), c[1]))
+    record_bad("ext:time_range_match", ctx.diff_cases(
+        "c16_xm", X.EXT_HEADER, "(fun x => xtime_range_match (xmatch_fuel (fst x) (snd x)) (fst x) (snd x))", mcases,
+        lambda x: "(%s, %s)" % (X.enc_xevent(x[0]), X.enc_range(x[1])), enc_opt(enc_bool), "eq_opt Bool.eqb"),
+        mcases, lambda c: "%s range %r -> %r" % (X.to_ics(c[0][0]).replace("\r\n", "|"), c[0][1], c[1]))
+    ctx.count("cases:ext-model-visit", len(vcases))
+    ctx.count("cases:ext-model-hull", len(hcases))
+    ctx.count("cases:ext-model-match", len(mcases))
 
 
 def filter_level(ctx, objs):
